@@ -49,6 +49,8 @@ type Profile struct {
 	PCallback    float64
 	PInfo        float64
 	PLocPC       float64 // a constructor is provided with LocationForPC
+	GroupTypes   []int   // element types of value groups (default: the first two of Types)
+	Twins        bool    // dig.As lists may name the two same-printing interface types
 	PVisualize   float64
 	PDefer       float64
 	PRecover     float64
@@ -108,10 +110,22 @@ func (g *gen) sees(s, target int) bool {
 func (g *gen) randSingleKey() Key {
 	return Key{T: g.pick(g.p.Types), Name: g.p.Names[g.r.Intn(len(g.p.Names))]}
 }
+
+// randIface: an interface type for a dig.As list.
+func (g *gen) randIface() int {
+	if g.p.Twins && g.coin(0.4) {
+		return tTwinA + g.r.Intn(2)
+	}
+	return tIfaceBase + g.r.Intn(4)
+}
+
 func (g *gen) randGroupKey() Key {
 	ts := g.p.Types
 	if len(ts) > 2 {
 		ts = ts[:2]
+	}
+	if len(g.p.GroupTypes) > 0 {
+		ts = g.p.GroupTypes
 	}
 	return Key{T: g.pick(ts), Group: g.p.Groups[g.r.Intn(len(g.p.Groups))]}
 }
@@ -130,6 +144,11 @@ func (g *gen) randResults(n int, allowGroup bool) []Res {
 			if r.K.T == tSliceV && g.coin(0.5) {
 				r.Nil = true
 				rs = append(rs, r)
+				continue
+			}
+			if r.K.T >= tPtrBase && r.K.T < tIfaceBase && g.coin(0.35) {
+				// the same pointer returned for two grouped results: two members, not one
+				rs = append(rs, r, Res{K: r.K, Twin: true})
 				continue
 			}
 			if g.coin(g.p.PFlatten) {
@@ -398,7 +417,7 @@ func genHistory(r *rand.Rand, p Profile) *History {
 		// As: positional, non-flatten results all implementing the interface
 		if !viaOpt || true {
 			if g.coin(p.PAs) {
-				iface := tIfaceBase + g.r.Intn(4)
+				iface := g.randIface()
 				ok := true
 				for _, x := range f.Results {
 					if x.Flatten || !implements(x.K.T, iface) {
@@ -425,7 +444,7 @@ func genHistory(r *rand.Rand, p Profile) *History {
 							}
 						}
 					} else if g.coin(0.3) {
-						i2 := tIfaceBase + g.r.Intn(4)
+						i2 := g.randIface()
 						ok2 := i2 != iface
 						for _, x := range f.Results {
 							if !implements(x.K.T, i2) {
@@ -443,7 +462,7 @@ func genHistory(r *rand.Rand, p Profile) *History {
 			// the same interface listed twice for a grouped result, anywhere in the list: still one member
 			op.As = append(op.As, op.As[g.r.Intn(len(op.As))])
 			if g.coin(0.5) {
-				if i3 := tIfaceBase + g.r.Intn(4); implements(f.Results[0].K.T, i3) && len(f.Results) == 1 {
+				if i3 := g.randIface(); implements(f.Results[0].K.T, i3) && len(f.Results) == 1 {
 					op.As = append(op.As, i3)
 				}
 			}
